@@ -503,7 +503,7 @@ fn poly_targets() -> Vec<(String, BigUint)> {
     t
 }
 
-fn poly_adversarial(seed: u64, n: usize) -> Vec<Case> {
+pub fn poly_adversarial(seed: u64, n: usize) -> Vec<Case> {
     let mut out = vec![];
     let mut f = Fill::new(seed, "C07:poly-adv");
     let targets = poly_targets();
